@@ -147,7 +147,8 @@ Definition sanitizers_for_attr_value (c : context) : option (list bytes) :=
                    | Some v =>
                        if negb (v prefix) then None
                        else if sc0 =? SC_TRU then Some [N_validateTRUSubst; N_queryEscapeURL; N_sanitizeHTML]
-                       else if match index_any [35; 63] prefix with Some _ => true | None => false end
+                       else if match index_any [35; 63] (html_unescape prefix) with Some _ => true | None => false end
+                            (* on the DECODED prefix (fix: decide between query escaping and normalization on the decoded URL prefix) *)
                        then Some [N_queryEscapeURL; N_sanitizeHTML]
                        else Some [N_normalizeURL; N_sanitizeHTML]
                    end
